@@ -58,6 +58,11 @@ RawLaws ==
                                       /\ RemovalWinsTies(a, o)
                                       /\ ChangeShape(a, o, TRUE, 3)
 
+(* The provisos are needed: without them commutativity fails (equal         *)
+(* timestamp, different content: each side keeps its own).  MC_laws_noproviso.cfg *)
+(* expects TLC to VIOLATE this.                                             *)
+CommWithoutProvisos == Case => CommB(a, b)
+
 (* Non-vacuity: the provisos do not filter everything away (checked by the  *)
 (* driver through the number of emitted cases) and the universe really      *)
 (* contains the interesting shapes.                                         *)
